@@ -27,28 +27,37 @@ PROPS = {
     "C01": {"jobs": [rapid("TestC01", 1500, 20000), enum("TestC01Sweep"),
                      # attribution under concurrency: sibling runs on one wire (the C11 scenario judged for C01's clause
                      # "replies to another run's probes never create a hop")
-                     rapid("TestC11", 400, 2000, name="TestC11(siblings)")]},
+                     rapid("TestC11", 400, 2000, name="TestC11(siblings)"),
+                     # attribution when a probe's identifier is touched by the zero-checksum handling (1 probe in 65 536):
+                     # the search job of C06, whose every hop is also judged against the reference
+                     enum("TestC06UDP6ChecksumSearch", name="TestC06UDP6ChecksumSearch(attribution)")]},
     "C02": {"jobs": [rapid("TestC02", 1500, 15000), enum("TestC02Product")]},
     "C03": {"jobs": [rapid("TestC03Protocol", 1500, 10000), rapid("TestC03Engine", 8000, 60000), rapid("TestC03OutOfRange", 3000, 20000), enum("TestC03AllPairs")]},
     "C04": {"jobs": [rapid("TestC04", 1500, 10000)]},
     "C05": {"jobs": [rapid("TestC05", 1500, 15000), rapid("TestC05RealTimeStall", 12, 40, shards_thorough=4)]},
     "C07": {"jobs": [rapid("TestC07", 8000, 60000), enum("TestC07Bounded")]},
-    "C08": {"jobs": [rapid("TestC08Runs", 800, 5000), rapid("TestC08Engines", 3000, 20000), rapid("TestC08Services", 2000, 10000), rapid("TestC08Request", 1500, 6000)]},
+    "C08": {"jobs": [rapid("TestC08Runs", 800, 5000), rapid("TestC08Engines", 3000, 20000), rapid("TestC08Services", 2000, 10000), rapid("TestC08Request", 1500, 6000), enum("TestC08SharedFetcherRealTime")]},
     "C09": {"jobs": [rapid("TestC09", 3000, 10000), enum("TestC09Truncations"), enum("TestC09TCPOptions")] +
             [fuzz("FuzzC09" + v) for v in ("icmp4", "icmp6", "udp4", "udp6", "tcp", "tcpparis", "sack", "Parser")]},
     "C10": {"jobs": [enum("TestC10Single"), enum("TestC10Paths"), enum("TestC10Request"), rapid("TestC10Multi", 2500, 8000)]},
-    "C06": {"jobs": [rapid("TestC06", 1200, 8000), rapid("TestC06Engine", 4000, 30000), enum("TestC06AllTTLs"), enum("TestC06UDP6ChecksumSearch"), rapid("TestC06Concurrent", 600, 4000)]},
+    "C06": {"jobs": [rapid("TestC06", 1200, 8000), rapid("TestC06Engine", 4000, 30000), enum("TestC06Reuse"), enum("TestC06AllTTLs"), enum("TestC06UDP6ChecksumSearch"), rapid("TestC06Concurrent", 600, 4000)]},
     "C20": {"jobs": [enum("TestC20Table"), rapid("TestC20", 2000, 2000), enum("TestC20ConnectTimeout")]},
     "C11": {"jobs": [rapid("TestC11", 800, 4000), rapid("TestC11Request", 800, 3000), rapid("TestC11Alloc", 500, 3000), enum("TestC11EchoIDs")]},
     "C12": {"jobs": [enum("TestC12Classes"), rapid("TestC12Random", 20000, 300000), rapid("TestC12EndToEnd", 1500, 10000)]},
-    "C13": {"jobs": [{"kind": "script", "name": "C13Kernel", "run": "C13Kernel", "cmd": ["python3", "c13_kernel.py"], "timeout_quick": 600, "timeout_thorough": 2400}]},
+    "C13": {"jobs": [{"kind": "script", "name": "C13Kernel", "run": "C13Kernel", "cmd": ["python3", "c13_kernel.py"], "timeout_quick": 600, "timeout_thorough": 2400},
+                     # "several traceroutes running at once" on the real-socket path: a wrong result there needs an
+                     # interleaving of microseconds (two runs attaching their filters at the same moment), which the
+                     # topology oracle meets only by luck; the race detector reports the unsynchronised access itself
+                     {"kind": "script", "name": "C13KernelRace", "run": "C13KernelRace", "cmd": ["python3", "c13_kernel.py"], "env": {"VERIF_C13_RACE": "1", "VERIF_C13_RACE_PROP": "C13"}, "timeout_quick": 900, "timeout_thorough": 2400}]},
     "C14": {"jobs": [rapid("TestC14", 400, 1500, race=True, env={"GORACE": "halt_on_error=1 exitcode=66"}),
                      rapid("TestC14Fanout", 250, 1000, race=True, env={"GORACE": "halt_on_error=1 exitcode=66"}),
                      rapid("TestC11Alloc", 300, 2000, race=True, name="TestC11Alloc(race)", env={"GORACE": "halt_on_error=1 exitcode=66"}),
+                     # documents finished by several goroutines at once (identifier generation is shared state)
+                     enum("TestC16ConcurrentIDs", race=True, name="TestC16ConcurrentIDs(race)", env={"GORACE": "halt_on_error=1 exitcode=66", "VERIF_C16_DOCS": "2000"}),
                      rapid("TestC15", 300, 1500, race=True, name="TestC15(race)", thorough_only=True, env={"GORACE": "halt_on_error=1 exitcode=66"}),
                      {"kind": "script", "name": "C13KernelRace", "run": "C13KernelRace", "cmd": ["python3", "c13_kernel.py"], "env": {"VERIF_C13_RACE": "1"}, "timeout_quick": 900, "timeout_thorough": 2400}]},
     "C15": {"jobs": [rapid("TestC15", 2500, 8000)]},
-    "C16": {"jobs": [rapid("TestC16", 20000, 120000)]},
+    "C16": {"jobs": [rapid("TestC16", 20000, 120000), enum("TestC16ConcurrentIDs")]},
     "C17": {"jobs": [rapid("TestC17Docs", 10000, 60000), rapid("TestC17Request", 1000, 4000)]},
     "C18": {"jobs": [rapid("TestC18Enrich", 5000, 30000), rapid("TestC18Cache", 4000, 30000), rapid("TestC18Providers", 4000, 20000)]},
     "C19": {"jobs": [rapid("TestC19", 3000, 8000), enum("TestC19Extremes")]},
